@@ -238,6 +238,10 @@ def build(desc):
     for k in ('unit', 'sampling'):
         if prior.get(k):
             d0[k] = prior[k]
+    if prior.get('spec') is not None:
+        # the object was first parsed with ANOTHER specification text (a parameter sweep that re-uses one object)
+        d0['spec'] = prior['spec']
+        d0['subspecs'] = prior.get('subspecs') or []
     spec = new_spec(d0)
     api('parse', spec.parse)
     if prior.get('early_reset'):
@@ -252,6 +256,24 @@ def build(desc):
             ct_evaluate(spec, prior['signals'], prior.get('order'))
         except (ApiCrash, NumericOverflow):
             pass
+    if prior.get('updates') is not None:
+        for t, inp in prior['updates']:
+            try:
+                dt_update(spec, t, inp)
+            except (ApiCrash, NumericOverflow):
+                pass
+    if prior.get('spec') is not None:
+        final = _decorate(desc) if ENV.get('decor') is not None else desc
+        for sub in final.get('subspecs') or []:
+            api('add_sub_spec', spec.add_sub_spec, sub)
+        spec.spec = final['spec']
+        api('parse', spec.parse)
+        if hasattr(spec, 'reset') and desc['cls'] in ('dt_on', 'ct_on', 'dt', 'ct'):
+            try:
+                api('reset', spec.reset)       # an online monitor has to be reset after a re-parse
+            except ApiCrash:
+                if desc['cls'] in ('dt_on', 'ct_on'):
+                    raise
     apply_config(spec, prior, desc)
     if desc.get('pastify'):
         api('pastify', spec.pastify)
